@@ -13,17 +13,18 @@
 //!     (EncodeOptions::validate) whose imports/exports are read back by decoding it.
 //! Universe: socket imports subset of { a:b/c@0.2.1 {f}, x: func, a:b/d {g} } (non-empty), socket exports run [+ extra];
 //! plug export sets: {a:b/c@0.2.0 {f}}, {a:b/c@0.2.1 {f}}, {a:b/c@0.2.1 {f -> u8}} (incompatible), {x}, {x -> u8}
-//! (incompatible), {z} (no match), {x, a:b/d {g}}, {a:b/c@0.3.0 {f}} (other track).
+//! (incompatible), {z} (no match), {x, a:b/d {g}}, {a:b/c@0.3.0 {f}} (other track), {a:b/c@0.2.1 {f, g}} (more than needed:
+//! compatible), {a:b/c@0.2.1 {}} (less than needed: incompatible).
 //! Exit 0 = agreement, 1 = a disagreeing case is printed.   usage: c10_plug [max_plugs]
 use std::collections::{BTreeMap, BTreeSet};
 use wac_graph::{plug, CompositionGraph, EncodeOptions, NodeKind, PlugError};
 use wac_types::{Package, Types};
 
 #[derive(Clone, Copy, PartialEq, Eq, Debug, PartialOrd, Ord)]
-enum Item { C020, C021, C021Bad, C030, X, XBad, Z, D }   // what a plug can export
+enum Item { C020, C021, C021Bad, C030, X, XBad, Z, D, C021Big, C021Empty }   // what a plug can export
 
 fn item_name(i: Item) -> &'static str {
-    match i { Item::C020 => "a:b/c@0.2.0", Item::C021 | Item::C021Bad => "a:b/c@0.2.1", Item::C030 => "a:b/c@0.3.0", Item::X | Item::XBad => "x", Item::Z => "z", Item::D => "a:b/d" }
+    match i { Item::C020 => "a:b/c@0.2.0", Item::C021 | Item::C021Bad | Item::C021Big | Item::C021Empty => "a:b/c@0.2.1", Item::C030 => "a:b/c@0.3.0", Item::X | Item::XBad => "x", Item::Z => "z", Item::D => "a:b/d" }
 }
 const SOCKET_IMPORTS: [&str; 3] = ["a:b/c@0.2.1", "x", "a:b/d"];
 
@@ -36,12 +37,16 @@ fn plug_wat(items: &[Item]) -> Vec<u8> {
   (instance $cf (export "f" (func $f)))
   (instance $ch (export "f" (func $h)))
   (instance $dg (export "g" (func $f)))
+  (instance $big (export "f" (func $f)) (export "g" (func $h)))
+  (instance $empty)
 "#);
     for it in items {
         let n = item_name(*it);
         match it {
             Item::C020 | Item::C021 | Item::C030 => s.push_str(&format!("  (export \"{n}\" (instance $cf))\n")),
             Item::C021Bad => s.push_str(&format!("  (export \"{n}\" (instance $ch))\n")),
+            Item::C021Big => s.push_str(&format!("  (export \"{n}\" (instance $big))\n")),
+            Item::C021Empty => s.push_str(&format!("  (export \"{n}\" (instance $empty))\n")),
             Item::D => s.push_str(&format!("  (export \"{n}\" (instance $dg))\n")),
             Item::X | Item::Z => s.push_str(&format!("  (export \"{n}\" (func $f))\n")),
             Item::XBad => s.push_str(&format!("  (export \"{n}\" (func $h))\n")),
@@ -69,9 +74,10 @@ fn socket_wat(mask: u32, extra: bool) -> Vec<u8> {
 fn supplies(item: Item, socket_mask: u32) -> Option<&'static str> {
     let has = |n: &str| SOCKET_IMPORTS.iter().enumerate().any(|(i, m)| *m == n && socket_mask & (1 << i) != 0);
     match item {
-        Item::C021 => if has("a:b/c@0.2.1") { Some("a:b/c@0.2.1") } else { None },
+        // an instance offering MORE than the socket needs is compatible, one offering less is not
+        Item::C021 | Item::C021Big => if has("a:b/c@0.2.1") { Some("a:b/c@0.2.1") } else { None },
         Item::C020 => if has("a:b/c@0.2.1") { Some("a:b/c@0.2.1") } else { None },   // semver-compatible name
-        Item::C021Bad | Item::XBad | Item::Z | Item::C030 => None,
+        Item::C021Bad | Item::C021Empty | Item::XBad | Item::Z | Item::C030 => None,
         Item::X => if has("x") { Some("x") } else { None },
         Item::D => if has("a:b/d") { Some("a:b/d") } else { None },
     }
@@ -80,7 +86,7 @@ fn supplies(item: Item, socket_mask: u32) -> Option<&'static str> {
 fn main() {
     let maxp: usize = std::env::args().nth(1).and_then(|s| s.parse().ok()).unwrap_or(2);
     let plug_kinds: Vec<Vec<Item>> = vec![
-        vec![Item::C020], vec![Item::C021], vec![Item::C021Bad], vec![Item::X], vec![Item::XBad], vec![Item::Z], vec![Item::X, Item::D], vec![Item::C030],
+        vec![Item::C020], vec![Item::C021], vec![Item::C021Bad], vec![Item::X], vec![Item::XBad], vec![Item::Z], vec![Item::X, Item::D], vec![Item::C030], vec![Item::C021Big], vec![Item::C021Empty],
     ];
     let mut lists: Vec<Vec<usize>> = vec![];
     let mut frontier: Vec<Vec<usize>> = vec![vec![]];
